@@ -252,7 +252,7 @@ func runC17(p *core.Prog, r *core.Report) {
 			fn := p.Func(pkgSvc, hn)
 			okM := false
 			gotM := ""
-			core.Instrs(fn, func(in ssa.Instruction) {
+			core.InstrsDeep(fn, func(in ssa.Instruction) {
 				ifi, ok := in.(*ssa.If)
 				if !ok {
 					return
@@ -413,7 +413,7 @@ func runC17(p *core.Prog, r *core.Report) {
 		nLook, nComplete := 0, 0
 		keyFields := map[string]bool{}
 		var inexact []string
-		core.Instrs(ng, func(in ssa.Instruction) {
+		core.InstrsDeep(ng, func(in ssa.Instruction) { // (an edge may be added by a helper method of the graph)
 			lk, ok := in.(*ssa.Lookup)
 			if !ok || !lk.CommaOk {
 				return
@@ -421,6 +421,7 @@ func runC17(p *core.Prog, r *core.Report) {
 			if f, _ := core.LoadedField(lk.X); f != idxF {
 				return
 			}
+			ng := lk.Parent() // the queries below are about the function that holds the lookup
 			nLook++
 			if why := exactReferenceKey(lk.Index, 0); why != "" {
 				inexact = append(inexact, why+" ("+p.Pos(lk.Pos())+")")
@@ -572,7 +573,7 @@ func runC17(p *core.Prog, r *core.Report) {
 			okOnly := true
 			if w.fn == "checkValidBlockFilter" {
 				var nilEdges []core.Edge
-				core.Instrs(fn, func(in ssa.Instruction) {
+				core.InstrsDeep(fn, func(in ssa.Instruction) {
 					ifi, ok := in.(*ssa.If)
 					if !ok {
 						return
@@ -784,7 +785,7 @@ func loopBounded(fn *ssa.Function, ia *ssa.IndexAddr) bool {
 // boundChecked: a comparison between (something derived from) the index and len(slice) dominates the access.
 func boundChecked(fn *ssa.Function, ia *ssa.IndexAddr) bool {
 	found := false
-	core.Instrs(fn, func(in ssa.Instruction) {
+	core.InstrsDeep(fn, func(in ssa.Instruction) {
 		ifi, ok := in.(*ssa.If)
 		if !ok || found {
 			return
@@ -821,7 +822,7 @@ func checkValidationPreconditions(p *core.Prog, r *core.Report) {
 	// P-kind-set: every call of ModuleKind reachable from validation is dominated, in ValidateModules, by a nil test of mod.Kind with error return
 	scope := []*ssa.Function{vm, p.Func(pkgMani, "checkValidBlockFilter"), p.Func(pkgMani, "checkValidInputs")}
 	okKind := false
-	core.Instrs(vm, func(in ssa.Instruction) {
+	core.InstrsDeep(vm, func(in ssa.Instruction) {
 		ifi, ok := in.(*ssa.If)
 		if !ok {
 			return
@@ -938,7 +939,7 @@ func selfReferenceRefused(p *core.Prog, ref *types.Var) bool {
 		if fn.Pkg == nil || fn.Pkg.Pkg.Path() != core.ModPath+"/"+pkgMani {
 			continue
 		}
-		core.Instrs(fn, func(in ssa.Instruction) {
+		core.InstrsDeep(fn, func(in ssa.Instruction) {
 			ifi, isIf := in.(*ssa.If)
 			if !isIf {
 				return
@@ -969,7 +970,7 @@ func selfReferenceRefused(p *core.Prog, ref *types.Var) bool {
 // is `looked-up index == the module's own index`.
 func onlySelfExcluded(fn *ssa.Function, tb, fb *ssa.BasicBlock, idx ssa.Value, isEdge func(ssa.Instruction) bool) bool {
 	var selfEdges []core.Edge
-	core.Instrs(fn, func(in ssa.Instruction) {
+	core.InstrsDeep(fn, func(in ssa.Instruction) {
 		ifi, ok := in.(*ssa.If)
 		if !ok {
 			return
@@ -1034,7 +1035,7 @@ func exactReferenceKey(v ssa.Value, depth int) string {
 		}
 		// edges of fn on which the reference is known to be absent
 		var absent []core.Edge
-		core.Instrs(fn, func(in ssa.Instruction) {
+		core.InstrsDeep(fn, func(in ssa.Instruction) {
 			ifi, ok := in.(*ssa.If)
 			if !ok {
 				return
